@@ -379,9 +379,15 @@ func runE2(n int, strat string, h []ev) {
 					got[x.Name] = true
 				}
 				for _, nm := range w.names {
-					if got[nm] != inRotation[nm] {
-						problem = fmt.Sprintf("after the request the repository says healthy(%s)=%v, completed updates imply %v", nm, got[nm], inRotation[nm])
+					if got[nm] && !inRotation[nm] {
+						problem = fmt.Sprintf("after the request the repository says healthy(%s)=true, completed updates imply it is out of rotation", nm)
 						return
+					}
+					if !got[nm] && inRotation[nm] {
+						// the other direction is not this property's business (C07 judges re-admission): a probe that
+						// the health checker's own breaker skipped leaves the endpoint out of rotation although the
+						// round "would have" succeeded; the reference follows the repository there
+						inRotation[nm] = false
 					}
 				}
 			}
